@@ -944,6 +944,14 @@ func (p *Program) ruleRequireValid(c *Check) {
 			}
 			return true
 		})
+		if checks {
+			// path coverage: no successful return escapes the RequireValid test
+			if where := p.successAvoidsGate(fn); where != "" {
+				c.Bad("E7.V4", con+"#every-success-path", p.declPos(fn), "a successful return ("+where+") is reachable without passing the RequireValid test: the object built on that path (an alternative representation, say) is never checked, so acceptance under RequireValid depends on another option")
+			} else {
+				c.OK("E7.V4", con+"#every-success-path", p.declPos(fn), "every path to a successful return passes the RequireValid test")
+			}
+		}
 		switch {
 		case checks:
 			c.OK("E7.V4", con, p.declPos(fn), "under RequireValid an object that reports itself invalid is rejected")
@@ -1069,7 +1077,7 @@ func sortedKeys(m map[string]string) []string {
 // callsParse: a repository helper that parses children through Parse.
 func (p *Program) callsParse(f *types.Func, depth int) bool {
 	fd, pkg := p.Decl(f), p.DeclPkg(f)
-	if fd == nil || depth > 2 || !p.IsRepoPkg(f.Pkg()) || strings.HasPrefix(f.Name(), "parseJSON") {
+	if fd == nil || depth > 2 || !p.IsRepoPkg(f.Pkg()) || typedParserNames[f.Name()] {
 		return false
 	}
 	parse := p.Func("geojson", "Parse")
@@ -1199,4 +1207,84 @@ func singleConstDef(info *types.Info, body *ast.BlockStmt, obj types.Object) (ty
 		return true
 	})
 	return out, ok && writes == 1 && out.Value != nil
+}
+
+var typedParserNames = map[string]bool{"parseJSONPoint": true, "parseJSONLineString": true, "parseJSONPolygon": true, "parseJSONMultiPoint": true,
+	"parseJSONMultiLineString": true, "parseJSONMultiPolygon": true, "parseJSONFeature": true, "parseJSONFeatureCollection": true, "parseJSONGeometryCollection": true}
+
+// successAvoidsGate: is there a path from the entry of the parser to a return
+// with a nil error that does not pass a block branching on opts.RequireValid?
+// Returns the position of such a return ("" if none).
+func (p *Program) successAvoidsGate(fn *types.Func) string {
+	sf := p.SSAFunc(fn)
+	if sf == nil || len(sf.Blocks) == 0 {
+		return ""
+	}
+	dependsOnRV := func(v ssa.Value) bool {
+		seen := map[ssa.Value]bool{}
+		var walk func(v ssa.Value, d int) bool
+		walk = func(v ssa.Value, d int) bool {
+			if v == nil || seen[v] || d > 8 {
+				return false
+			}
+			seen[v] = true
+			switch x := v.(type) {
+			case *ssa.UnOp:
+				if fa, ok := x.X.(*ssa.FieldAddr); ok && x.Op == token.MUL {
+					if st, ok := fa.X.Type().Underlying().(*types.Pointer).Elem().Underlying().(*types.Struct); ok && st.Field(fa.Field).Name() == "RequireValid" {
+						return true
+					}
+				}
+				return walk(x.X, d+1)
+			case *ssa.BinOp:
+				return walk(x.X, d+1) || walk(x.Y, d+1)
+			case *ssa.Phi:
+				for _, e := range x.Edges {
+					if walk(e, d+1) {
+						return true
+					}
+				}
+			}
+			return false
+		}
+		return walk(v, 0)
+	}
+	gate := map[*ssa.BasicBlock]bool{}
+	for _, b := range sf.Blocks {
+		if len(b.Instrs) == 0 {
+			continue
+		}
+		if iff, ok := b.Instrs[len(b.Instrs)-1].(*ssa.If); ok && dependsOnRV(iff.Cond) {
+			gate[b] = true
+		}
+	}
+	if len(gate) == 0 {
+		return ""
+	}
+	seen := map[*ssa.BasicBlock]bool{}
+	work := []*ssa.BasicBlock{sf.Blocks[0]}
+	seen[sf.Blocks[0]] = true
+	for len(work) > 0 {
+		b := work[len(work)-1]
+		work = work[:len(work)-1]
+		if gate[b] {
+			continue
+		}
+		if len(b.Instrs) > 0 {
+			if ret, ok := b.Instrs[len(b.Instrs)-1].(*ssa.Return); ok && len(ret.Results) == 2 {
+				if k, ok := ret.Results[1].(*ssa.Const); ok && k.IsNil() {
+					if ok0, isK := ret.Results[0].(*ssa.Const); !(isK && ok0.IsNil()) {
+						return p.Pos(ret.Pos())
+					}
+				}
+			}
+		}
+		for _, s := range b.Succs {
+			if !seen[s] {
+				seen[s] = true
+				work = append(work, s)
+			}
+		}
+	}
+	return ""
 }
